@@ -202,10 +202,11 @@ ADD11 = {
  "C11": " The active checker's start depends on no other presence test than health_checks and active; Cleanup, evaluated on handlers provisioned 2+1, 2+0, 1+0 and 0+0 addresses far, releases exactly the table entries provisioning stored.",
  "C12": " Every placeholder WrapConnection derives from the connection's addresses is set again from the new connection before it is handed on; all allow lines of a Caddyfile block add up; prefetch keeps its bytes in storage of its own. KNOWN FINDING (C12.R17, recorded, not repaired): after a v1 'PROXY UNKNOWN' header the library's wrapper reports ':0' and the handler hands it on without looking at the header.",
  "C13": " A handler that hands on a new connection builds it on the connection it was given; nothing a matcher does writes into the matching buffer.",
- "C14": " The address tested against the ranges has had its IPv6 zone removed; the dns rules are given the question name lower-cased and are consulted only about questions whose class and type lookups both succeeded; winbox user names of one, two and three characters.",
+ "C14": " In a matcher's Provision the loop over one configured list is not guarded by the emptiness of another (both lists given: both apply); a SOCKS5 greeting offers at least one method. The address tested against the ranges has had its IPv6 zone removed; the dns rules are given the question name lower-cased and are consulted only about questions whose class and type lookups both succeeded; winbox user names of one, two and three characters.",
  "C15": " A field's map written by a parser is made or found non-nil on every path to the write. KNOWN FINDING (C15.R20, recorded, not repaired): the documented `cert_selection { public_key_algorithm rsa }` adapts to JSON that does not load (caddytls.PublicKeyAlgorithm reads names, is written as a number).",
+ "C16": " Accounts are evaluated with the replacer as caddy implements it: braces that are no placeholder stay part of the name or password.",
  "C17": " Every value stored into the handler-wide limiter is rate.NewLimiter on the handler's own total rate and total burst.",
- "C18": " The openvpn verdict tables also under this property (a parser rejects a wrong length whatever state the message object is in).",
+ "C18": " Every type's length bounds are the package's own constants (a transport message has at least MessageTransportBytesMin bytes); a parser never assigns a slice field append(<that field as it was on entry>, ...). The openvpn verdict tables also under this property (a parser rejects a wrong length whatever state the message object is in).",
 }
 
 checks = []
